@@ -1,11 +1,12 @@
 (* Model runner for C03.  usage: c03_model cases.txt impl.txt > model.txt
    W <stamp_us>          the bounded wait of closeWithError: prints its length in microseconds when lastSend is
                          stamped after <stamp_us> (0 = never): iterations x tick, or the first poll after the stamp
-   S <T|U> <n> <sent> <closed> <have> <empty>
+   S <T|U> <n> <sent> <closed> <have> <empty> <eager>
                          abstract schedule of one scenario (see model/CloseProto.v, [canonical]): n sequenced
                          segments, <sent> of them handed to the network before the close request, the peer
                          endpoint had received the listed segments (ranges a-b,c,...; "-" = none) when it
-                         received the close request (<closed> = 1).  Prints "EOF k" / "ERROR k" / "RUNNING k":
+                         received the close request (<closed> = 1); <eager> = 1: the peer application read while the
+                         data arrived, 0: it read nothing before the close request had arrived (receiver backlog).  Prints "EOF k" / "ERROR k" / "RUNNING k":
                          how Read ends and how many segments the application has read before
                          (not counting trailing segments listed in <empty>: they carry no payload). *)
 open Model
@@ -30,11 +31,11 @@ let () =
       let total = iters * tick_us in
       if stamp = 0 || stamp >= total then Printf.printf "%d\n" total
       else Printf.printf "%d\n" (((stamp + tick_us - 1) / tick_us) * tick_us)
-    | ["S"; tr; n; sent; closed; have; empty] ->
+    | ["S"; tr; n; sent; closed; have; empty; eager] ->
       let n = int_of_string n and sent = int_of_string sent in
       let tr = if tr = "T" then TCP else UDP in
       let c = current_cfg tr (n_of_int n) (n_of_int (n + 2)) N0 in
-      (match predict c (nat_of_int sent) (List.map nat_of_int (parse_ranges have)) (closed = "1") with
+      (match predict c (nat_of_int sent) (List.map nat_of_int (parse_ranges have)) (closed = "1") (eager = "1") with
        | None -> print_endline "UNEXPLAINED"
        | Some st ->
          let empty = parse_ranges empty in
